@@ -864,3 +864,73 @@ impl VLinkFlowState {
         r.consume(count).map_err(|e| format!("{:?}", e))
     }
 }
+
+/// The waiting half of the sender credit wake-up protocol (`SenderFlowState`)
+pub struct VWakeConsumer {
+    inner: crate::link::SenderFlowState,
+}
+
+/// The granting half (`Producer` held by the session's `LinkRelay::Sender`)
+pub struct VWakeProducer {
+    inner: Producer<Arc<LinkFlowState<role::SenderMarker>>>,
+}
+
+/// A consumer/producer pair sharing one flow state and one `Notify`, as built for a sender link
+pub fn wake_pair(initial_delivery_count: u32) -> (VWakeConsumer, VWakeProducer) {
+    let state = Arc::new(LinkFlowState::sender(LinkFlowStateInner {
+        initial_delivery_count,
+        delivery_count: initial_delivery_count,
+        link_credit: 0,
+        available: 0,
+        drain: false,
+        properties: None,
+    }));
+    let consumer = Consumer::new(Arc::new(Notify::new()), state);
+    let producer = consumer.producer();
+    (VWakeConsumer { inner: consumer }, VWakeProducer { inner: producer })
+}
+
+impl VWakeConsumer {
+    /// `SenderFlowState::consume`: waits until `count` credits could be taken
+    pub async fn consume(&self, count: u32) -> [u8; 4] {
+        use crate::util::Consume;
+        self.inner.consume(count).await
+    }
+
+    pub fn counters(&self) -> VLinkCounters {
+        let i = self.inner.state().lock.read();
+        VLinkCounters {
+            initial_delivery_count: i.initial_delivery_count,
+            delivery_count: i.delivery_count,
+            link_credit: i.link_credit,
+            available: i.available,
+            drain: i.drain,
+        }
+    }
+
+    pub fn set_link_credit(&self, credit: u32) {
+        self.inner.state().lock.write().link_credit = credit;
+    }
+
+    /// an extra `notify_waiters` (used by the harness to tell a lost wake-up from a slow task)
+    pub fn notify_waiters(&self) {
+        self.inner.notifier.notify_waiters();
+    }
+}
+
+impl VWakeProducer {
+    /// `Producer::produce` as called by `LinkRelay::on_incoming_flow`
+    pub async fn produce(&mut self, l: VLinkFlow) -> Option<VLinkFlow> {
+        use crate::util::Produce;
+        let lf = LinkFlow {
+            handle: Handle(l.handle),
+            delivery_count: l.delivery_count,
+            link_credit: l.link_credit,
+            available: l.available,
+            drain: l.drain,
+            echo: l.echo,
+            properties: None,
+        };
+        VLinkFlowState::conv(self.inner.produce((lf, OutputHandle(0))).await)
+    }
+}
